@@ -188,8 +188,22 @@ def _exactness(*objs):
     return not any(unitgen.has_float(o) for o in objs)
 
 
+# targets that are bare numbers, one per Python / SymPy TYPE the API accepts (model: a dimensionless unit of that scale)
+NUMBER_TARGETS = ["1", "1000", "-2", "7", "0.5", "2.5", "1e-3", "1024.0", "prefixes.kilo", "prefixes.milli", "prefixes.mega", "prefixes.centi",
+    "prefixes.hecto", "prefixes.micro", "S.One", "Integer(1000)", "Integer(-3)", "Rational(1,1000)", "Rational(22,7)", "Float(0.25)",
+    "Float(1000.0)", "Quantity(1000)", "Quantity(S.One)", "Quantity(prefixes.kilo)", "u.percent", "Quantity(Rational(1,8))"]
+NUMBER_TARGET_VALUES = ["Quantity(2*u.meter)", "2*u.meter/u.second", "Quantity(5*u.joule)", "Quantity(Rational(7,2)*u.kilogram)", "3*u.hertz",
+    "Quantity(S(7))", "S(3)", "Quantity(3*u.percent)", "Quantity(4*u.radian)", "2.5", "Quantity(6*u.meter/u.kilometer)", "Quantity(0*u.meter)"]
+
+
 def gen_pair(rng):
     """(value source, target source, kind)"""
+    if rng.random() < 0.06:
+        # refusal clause against every target TYPE: Python int / float, prefixes.*, SymPy numbers, dimensionless Quantity
+        if rng.random() < 0.5:
+            return rng.choice(NUMBER_TARGET_VALUES), rng.choice(NUMBER_TARGETS), "number-target"
+        vsrc, _mk = unitgen.quantity_src(rng, unitgen.pick_class(rng), allow_special=False)
+        return vsrc, rng.choice(NUMBER_TARGETS), "number-target"
     cls = unitgen.pick_class(rng)
     r = rng.random()
     vsrc, mk = unitgen.quantity_src(rng, cls)
@@ -238,9 +252,11 @@ def stream_convert(ctx, n):
     rng = ctx.rng
     cases, hist = [], {}
     tries = 0
+    # always present: every number-target type against dimensionful and dimensionless values
+    fixed = [(v, t, "number-target") for v in NUMBER_TARGET_VALUES for t in NUMBER_TARGETS]
     while len(cases) < n and tries < 6 * n:
         tries += 1
-        vsrc, tsrc, kind = gen_pair(rng)
+        vsrc, tsrc, kind = fixed.pop(0) if fixed else gen_pair(rng)
         try:
             value, target = build(vsrc), build(tsrc)
             lit_in = f"{carg_lit(value)}, {carg_lit(target)}"
@@ -1289,7 +1305,9 @@ def run(ctx):
         "significant digits, the same expression object reused, Quantity vs raw targets, each compared with the stateless model; "
         "convert: seeded (value, target) over 23 dimension classes x their spellings (base, derived, SymPy-prefixed, "
         "symplyphysics-prefixed, non-decimal units), magnitudes exact / dyadic / float / 0, +-oo, nan, as Quantity objects and as raw "
-        "expressions, 60% same class / 40% other class, angle factors, zero / infinite targets; si: random integer and half-integer "
+        "expressions, 60% same class / 40% other class, angle factors, zero / infinite targets, and (312 fixed + 6% random cases) bare-number "
+        "targets of every accepted type (Python int / float, prefixes.*, SymPy Integer / Rational / Float / S.One, dimensionless Quantity) "
+        "against dimensionful and dimensionless values; si: random integer and half-integer "
         "dimension vectors, SI-unit round trips, angle-bearing dimensions, dimension_to_si_unit itself, convert_to_float; compose: triples "
         "of one class; extra-dimension: information units and user-defined Dimension objects in value / target / both, verdicts against "
         "the dimsys_SI dependency predicate (no model); evaluate: random Add/Mul/Pow trees (depth <= 3) over 1-3 leaves, 35% of them plain "
